@@ -311,6 +311,14 @@ where
         // note that the coefficients of the remainder polynomial are sent in reverse order and
         // this simplifies evaluation using Horner's method.
         let remainder_poly = channel.read_remainder()?;
+
+        // make sure the remainder polynomial sent by the prover is the one the prover committed to
+        // before the query positions were drawn (the last layer commitment is the hash of the
+        // remainder polynomial coefficients)
+        match self.layer_commitments.last() {
+            Some(commitment) if *commitment == H::hash_elements(&remainder_poly) => (),
+            _ => return Err(VerifierError::RemainderCommitmentMismatch),
+        }
         if remainder_poly.len() > max_degree_plus_1 {
             return Err(VerifierError::RemainderDegreeMismatch(max_degree_plus_1 - 1));
         }
